@@ -14,13 +14,17 @@ open XmppModel.Close
 
 /-- every transmit entry point tests `OutputStreamClosed` after taking the output lock and
 before touching the encoder; `Close` and `sendError` take the output lock and the state lock for
-their whole body; `closeSession` tests the bit, sets it, and only then writes the tag -/
+their whole body; `closeSession` tests the bit, sets it, and only then writes the tag;
+`SetCloseDeadline` replaces the input context under the state lock and `Serve` reads it only
+through `inputErr`, which takes the read lock (the data race the race detector reported before
+the repair) -/
 theorem C10_gen_checks :
     Generated.C10.checksClosed = some [("Encode", true), ("EncodeElement", true), ("send", true)] ∧
     Generated.C10.closersLock = some [("Close", true), ("sendError", true)] ∧
     Generated.C10.closeSessionShape = some true ∧
     Generated.C10.writerChecksPerToken = some true ∧
-    Generated.C10.readerChecksPerToken = some true := by decide
+    Generated.C10.readerChecksPerToken = some true ∧
+    Generated.C10.deadlineSynchronised = some true := by decide
 
 /-! ### Interleavings -/
 
